@@ -15,6 +15,21 @@ theorem fateOf_of_passes (l : List ScopeKind) (h : l.all ScopeKind.passes = true
     simp only [List.all_cons, Bool.and_eq_true] at h
     cases k <;> simp_all [fateOf, ScopeKind.passes]
 
+theorem reachesReemit_of_passes (l : List ScopeKind) (seen : Bool) (h : l.all ScopeKind.passes = true) :
+    reachesReemit l seen = false := by
+  induction l generalizing seen with
+  | nil => rfl
+  | cons k r ih =>
+    simp only [List.all_cons, Bool.and_eq_true] at h
+    cases k
+    case propagate => simp only [reachesReemit]; exact ih seen h.2
+    case capture => simp only [reachesReemit]; exact ih true h.2
+    all_goals simp [ScopeKind.passes] at h
+
+theorem replacement_of_passes (o : Out) (loc : Where) (scopes : List ScopeKind) (filtered : Bool)
+    (h : scopes.all ScopeKind.passes = true) : replacement o loc scopes filtered = [] := by
+  simp [replacement, reachesReemit_of_passes scopes.reverse false (by simpa using h)]
+
 theorem getsThrough_of_benign (l : List ScopeKind) (h : l.all ScopeKind.benign = true) : getsThrough l = true := by
   induction l with
   | nil => rfl
@@ -30,6 +45,7 @@ theorem fateOf_of_benign (l : List ScopeKind) (h : l.all ScopeKind.benign = true
     simp only [List.all_cons, Bool.and_eq_true] at h
     cases k
     case catchReraise => right; simp [fateOf, getsThrough_of_benign r h.2]
+    case catchReemit => right; simp [fateOf, getsThrough_of_benign r h.2]
     all_goals simp_all [fateOf, ScopeKind.benign]
 
 /-- (`C15.emit_exited`, restated here so that this file does not depend on Props/C15.) -/
@@ -63,7 +79,7 @@ theorem locate_eq_bySrc (cur : Option FileId) (stack : List (Option FileId)) (st
         split
         · rename_i hr; simp only [hr, if_true] at h; exact ih _ _ h
         · rename_i hr; simp only [hr] at h; exact ih _ _ h
-    | diag lv b src scopes =>
+    | diag lv b src filtered scopes =>
       simp only [inOwnFile, Bool.and_eq_true, decide_eq_true_eq] at h
       simp only [locate, bySrc, h.1, ih _ _ h.2]
 
@@ -106,17 +122,17 @@ theorem go_of_passes (cfg : Cfg) (r : Run) (steps : List Step)
           exact ih _ hrest (by first | rfl | exact hx)
         · simp only [if_true, hx, Bool.false_eq_true, if_false]
           exact ih _ hrest (by first | rfl | exact hx)
-    | diag lv b src scopes =>
+    | diag lv b src filtered scopes =>
       have hsc : scopes.all ScopeKind.passes = true := by simpa [Step.scopesAll] using hp.1
       have hf : fateOf scopes.reverse = .exits := fateOf_of_passes _ (by simpa using hsc)
       simp only [go, step, locate, runEvents, hf]
       by_cases he : (emit cfg r.state ⟨lv, b, placeOf r.cur⟩).exited = true
-      · simp [he, applyFate, afterEmit]
+      · simp [he, applyFate, afterEmit, replacement_of_passes _ _ _ _ hsc]
       · simp only [he, Bool.false_eq_true, if_false]
-        have hx' : (afterEmit r (emit cfg r.state ⟨lv, b, placeOf r.cur⟩) (placeOf r.cur) scopes).exited = false := hx
+        have hx' : (afterEmit r (emit cfg r.state ⟨lv, b, placeOf r.cur⟩) (placeOf r.cur) scopes filtered).exited = false := hx
         simp only [hx', Bool.false_eq_true, if_false]
         obtain ⟨h1, h2, h3, h4⟩ := ih _ hrest hx'
-        exact ⟨h1, h2, by simpa [afterEmit, List.append_assoc] using h3, h4⟩
+        exact ⟨h1, h2, by simpa [afterEmit, replacement_of_passes _ _ _ _ hsc, List.append_assoc] using h3, h4⟩
 
 /-! ### `go` under scopes that may hold a SystemExit but never discard it -/
 
@@ -158,7 +174,7 @@ theorem go_of_benign (cfg : Cfg) (r : Run) (steps : List Step)
           exact ih _ hrest (by first | rfl | exact hx)
         · simp only [if_true, hx, Bool.false_eq_true, if_false]
           exact ih _ hrest (by first | rfl | exact hx)
-    | diag lv b src scopes =>
+    | diag lv b src filtered scopes =>
       have hsc : scopes.all ScopeKind.benign = true := by simpa [Step.scopesAll] using hp.1
       have hf := fateOf_of_benign scopes.reverse (by simpa using hsc)
       have hex := emit_exited' cfg r.state ⟨lv, b, placeOf r.cur⟩
@@ -171,8 +187,8 @@ theorem go_of_benign (cfg : Cfg) (r : Run) (steps : List Step)
         · simp only [he, hf, if_true, he', Bool.true_or, Bool.or_true]
           refine ⟨?_, by simp⟩
           -- held: the run goes on with `pending = true`; whatever follows, it ends pending or exited
-          have hx' : (applyFate (afterEmit r (emit cfg r.state ⟨lv, b, placeOf r.cur⟩) (placeOf r.cur) scopes) (.held true)).exited = false := hx
-          have hp' : (applyFate (afterEmit r (emit cfg r.state ⟨lv, b, placeOf r.cur⟩) (placeOf r.cur) scopes) (.held true)).pending = true := by
+          have hx' : (applyFate (afterEmit r (emit cfg r.state ⟨lv, b, placeOf r.cur⟩) (placeOf r.cur) scopes filtered) (.held true)).exited = false := hx
+          have hp' : (applyFate (afterEmit r (emit cfg r.state ⟨lv, b, placeOf r.cur⟩) (placeOf r.cur) scopes filtered) (.held true)).pending = true := by
             simp [applyFate]
           have := (ih _ hrest hx').1
           simp only [hx', Bool.false_eq_true, if_false]
@@ -180,7 +196,7 @@ theorem go_of_benign (cfg : Cfg) (r : Run) (steps : List Step)
       · have he' := he
         rw [hex] at he'
         simp only [Bool.not_eq_true] at he he'
-        have hx' : (afterEmit r (emit cfg r.state ⟨lv, b, placeOf r.cur⟩) (placeOf r.cur) scopes).exited = false := hx
+        have hx' : (afterEmit r (emit cfg r.state ⟨lv, b, placeOf r.cur⟩) (placeOf r.cur) scopes filtered).exited = false := hx
         simp only [he, he', Bool.false_eq_true, if_false, hx', Bool.false_or]
         exact ih _ hrest hx'
 
